@@ -21,7 +21,8 @@ DESIGN_REF = 'DESIGN.md 6.3'
 BUDGET = {'quick': 40, 'thorough': 600}
 CHUNK = {'quick': 150, 'thorough': 300}
 RULE = ('one case = one seeded scenario (2-4 contender processes x 1-3 lock/unlock cycles, release style, '
-        'time-outs, hold styles, optional process kill) under one seeded schedule at file-system-call granularity; '
+        'time-outs, hold styles, lock file permissions, lock-object re-use, optional process kill, optional failing unlink of the lock '
+        'file) under one seeded schedule at file-system-call granularity; '
         'non-trivial = at least one try-lock attempt failed because another contender held the lock (real contention) '
         'or a time-out was raised; distinct = distinct hash of the (task, seam-op, object) event sequence')
 COMPONENTS = {
